@@ -16,6 +16,8 @@ A *case* (JSON-able; stored literally in replays):
 `<k>` is the index (0-based) of the k-th feedback object created in the session.
 Field values are JSON values: str, int, null, list, or {"obj": {"line": 3}} (an object with attributes).
 """
+import gc
+import json
 import string
 import types
 
@@ -26,7 +28,7 @@ use_repo()
 from pedal.core import feedback as fb_mod                     # noqa: E402
 from pedal.core import formatting                             # noqa: E402
 from pedal.core.feedback import Feedback, FeedbackGroup, FeedbackResponse   # noqa: E402
-from pedal.core.report import MAIN_REPORT                     # noqa: E402
+from pedal.core.report import MAIN_REPORT, Report             # noqa: E402
 from pedal.core import commands                               # noqa: E402
 
 TAG_OPEN, TAG_SEP, TAG_CLOSE = "\ue000", "\ue001", "\ue002"
@@ -206,6 +208,8 @@ class Session:
         self.objects = []          # every Feedback whose base __init__ started, in order
         self.captured = []         # (self, kwargs at the base boundary, instance dict at entry)
         self.child_log = []
+        #: the report every op of the session addresses: the global one or a separate Report()
+        self.report = MAIN_REPORT if case.get("report", "main") == "main" else Report()
         self.formatters = {"default": formatting.Formatter()}
         self.fmt_epoch = 0
         self.current_fmt = "default"
@@ -320,21 +324,24 @@ class Session:
         orig_child = Feedback._get_child_feedback
         saved = snapshot_class_state(self.classes.values())
         MAIN_REPORT.clear()
+        R = self.report
         Feedback.__init__ = spy
         Feedback._get_child_feedback = log_child
         try:
             for op in self.case["ops"]:
                 obs.append(self.run_op(op))
-            final = {"feedback": [self.obj_id(f) for f in MAIN_REPORT.feedback],
-                     "ignored": [self.obj_id(f) for f in MAIN_REPORT.ignored_feedback],
+            final = {"feedback": [self.obj_id(f) for f in R.feedback],
+                     "ignored": [self.obj_id(f) for f in R.ignored_feedback],
+                     "stray": (len(MAIN_REPORT.feedback) + len(MAIN_REPORT.ignored_feedback)) if R is not MAIN_REPORT else 0,
                      "childlog": [(self.obj_id(g), self.obj_id(c), bool(a)) for g, c, a in self.child_log]}
         finally:
             Feedback.__init__ = orig_init
             Feedback._get_child_feedback = orig_child
-            try:
-                MAIN_REPORT.clear()
-            except Exception:
-                pass
+            for rep in (R, MAIN_REPORT):
+                try:
+                    rep.clear()
+                except Exception:       # noqa: BLE001
+                    pass
             restore_class_state(saved)
         return obs, final
 
@@ -361,7 +368,7 @@ class Session:
         else:
             p = "PG%d" % self.obj_id(parent)
         fields = getattr(o, "fields", None) or {}
-        rep = getattr(o, "report", None) or MAIN_REPORT
+        rep = self.report
         return {"kind": "fb", "id": self.obj_id(o), "met": bool(o) if "_met_condition" in d else None,
                 "n_triggered": sum(1 for f in rep.feedback if f is o),
                 "n_untriggered": sum(1 for f in rep.ignored_feedback if f is o),
@@ -386,6 +393,8 @@ class Session:
                     kw[key] = self.values.make(v)[1]
             if op.get("parent") is not None:
                 kw["parent"] = self.parent_obj(op["parent"])
+            if self.report is not MAIN_REPORT:
+                kw["report"] = self.report
             n0 = len(self.objects)
             raised = None
             try:
@@ -407,27 +416,30 @@ class Session:
             cls = self.classes[op["cls"]]
             raised = None
             try:
-                cls.override(**op["fields"])
+                if self.report is not MAIN_REPORT:
+                    cls.override(report=self.report, **op["fields"])
+                else:
+                    cls.override(**op["fields"])
             except Exception as e:      # noqa: BLE001
                 raised = type(e).__name__
             return {"kind": "ov", "raised": raised}
         if k == "clear":
-            MAIN_REPORT.clear()
+            self.report.clear()
             self.current_fmt = "default"
             return {"kind": "ok", "not_restored": self.attr_diff()}
         if k == "start":
-            MAIN_REPORT.start_group(self.parent_obj(op["parent"]))
+            self.report.start_group(self.parent_obj(op["parent"]))
             return {"kind": "ok"}
         if k == "stop":
-            MAIN_REPORT.stop_group(self.parent_obj(op["parent"]))
+            self.report.stop_group(self.parent_obj(op["parent"]))
             return {"kind": "ok"}
         if k == "setformatter":
             self.fmt_epoch += 1
             fid = "%s#%d" % (op["name"], self.fmt_epoch)
-            f = FORMATTERS[op["name"]](MAIN_REPORT)
+            f = FORMATTERS[op["name"]](self.report)
             self.formatters[fid] = f
             self.current_fmt = fid
-            MAIN_REPORT.set_formatter(f)
+            self.report.set_formatter(f)
             return {"kind": "ok"}
         if k == "probe":
             cls = self.classes[op["cls"]]
@@ -549,6 +561,9 @@ def _make_condition(kind):
         return lambda self, *a, **k: [0]
     if kind == "falsy":
         return lambda self, *a, **k: ""
+    if kind.startswith("val:"):
+        value = json.loads(kind[4:])
+        return lambda self, *a, **k: value
     if kind.startswith("raise:"):
         exc = _exc_class(kind[6:])
 
@@ -580,6 +595,8 @@ def _exc_class(name):
 
 def cond_truth(kind, activate):
     """the property's notion of 'the condition held' for a generated class"""
+    if kind.startswith("val:"):
+        return bool(json.loads(kind[4:]))
     return {"default": bool(activate), "true": True, "truthy": True, "false": False, "falsy": False}.get(kind, False)
 
 
@@ -590,6 +607,8 @@ def enc_cond(kind):
         return "CT"
     if kind in ("false", "falsy"):
         return "CF"
+    if kind.startswith("val:"):
+        return "CT" if json.loads(kind[4:]) else "CF"
     return "CE " + enc_str(kind[6:])
 
 
@@ -733,10 +752,19 @@ def all_strings(model_ops):
                 yield m["calls"]
 
 
-def run_sessions(driver, cases):
+def run_sessions(driver, cases, chunk=400):
     """Runs every case on real pedal and (two-phase) on the model.  Returns list of
-    (case, session, real_obs, real_final, model_ops, model_final, n_oracle_entries);
-    model_* is None on bad-request."""
+    (case, None, real_obs, real_final, model_ops, model_final, n_oracle_entries);
+    model_* is None on bad-request.  Works in chunks and drops the generated classes of finished
+    chunks (every assignment to a Feedback attribute walks all live subclasses)."""
+    out = []
+    for start in range(0, len(cases), chunk):
+        out.extend(_run_chunk(driver, cases[start:start + chunk]))
+        gc.collect()
+    return out
+
+
+def _run_chunk(driver, cases):
     sessions = []
     for case in cases:
         s = Session(case)
@@ -760,7 +788,7 @@ def run_sessions(driver, cases):
     out = []
     for s, ans, t in zip(sessions, phase2, tables):
         parsed = parse_answer(ans)
-        out.append((s.case, s, s.obs, s.final, parsed[0] if parsed else None, parsed[1] if parsed else None, len(t)))
+        out.append((s.case, None, s.obs, s.final, parsed[0] if parsed else None, parsed[1] if parsed else None, len(t)))
     return out
 
 
@@ -804,6 +832,8 @@ def compare(case, real_obs, real_final, model_ops, model_final):
     for key in ("feedback", "ignored"):
         if real_final[key] != model_final[key]:
             diffs.append("final %s real=%r model=%r" % (key, real_final[key], model_final[key]))
+    if real_final.get("stray"):
+        diffs.append("%d objects recorded in MAIN_REPORT although every call named another report" % real_final["stray"])
     if sorted(real_final["childlog"]) != sorted(model_final["childlog"]):
         diffs.append("final childlog real=%r model=%r" % (real_final["childlog"], model_final["childlog"]))
     return diffs
